@@ -58,6 +58,10 @@ func (r *Reader) Read(p []byte) (n int, err error) {
 	// The remaining bits are used for the chunk size (up to 64KB).
 	r.buf = r.b[:size]
 	if _, err := io.ReadFull(r.r, r.buf); err != nil {
+		r.buf = nil
+		if err == io.EOF {
+			err = io.ErrUnexpectedEOF
+		}
 		return 0, err
 	}
 
